@@ -6,3 +6,5 @@ mkdir -p bin
 (cd tools/vdriver && go build -o /verif/bin/vdriver .) || exit 1
 (cd tools/simgen && go build -o /verif/bin/simgen .) || exit 1
 bin/vdriver build || exit 1
+# the -race harness used by the race-mode companions (C01R, C09R, C09SR, C17R)
+bin/vdriver build --race || exit 1
